@@ -373,6 +373,18 @@ fn main() {
             }
         }
     }
+    // alias classes of the derived day number (a narrowing cast of days-since-CE somewhere below the readers)
+    for per in [1i128, 1000, 1_000_000, 1_000_000_000] {
+        for k in [1i128, -1, 2, 3] {
+            for sh in [31u32, 32, 33] {
+                for d in [0i128, 1, -1, CE_OFFSET as i128, 730_000, MAX_DAY as i128 + CE_OFFSET as i128] {
+                    let days = k * (1i128 << sh) + d;
+                    ints.push((days - CE_OFFSET as i128) * 86400 * per);
+                    ints.push(((days - CE_OFFSET as i128) * 86400 + 86399) * per + per - 1);
+                }
+            }
+        }
+    }
     ints.retain(|n| *n >= i64::MIN as i128 && *n <= u64::MAX as i128);
     ints.sort();
     ints.dedup();
